@@ -144,8 +144,9 @@ def gen_cases(rng, tier):
                     c = mk(rng, depth, w, h, pw, ph)
                     yield c
                     yield reencode(rng, c)
-                    if rng.random() < 0.3:
-                        yield mk(rng, depth, w, h, pw, ph, enc='raw')
+                    # raw storage of the same image at every grid point (raw == compressed is part of the property)
+                    r = dict(c); r['enc'] = 'raw'; r.pop('segs', None)
+                    yield r
     # every segmentation of short rows over a 3-value alphabet (8 bit) / of 2- and 4-byte rows (1 bit)
     for w in ([1, 2, 3, 4] if thorough else [2, 3]):
         for pw in (0, 1):
